@@ -1,1 +1,67 @@
 import Goflow.Pipe
+import Proofs.Lemmas.Assoc
+/-!
+  C11 — Sampling rate follows the exporter's latest announcement.
+-/
+namespace Goflow.C11
+open Goflow Goflow.Producer Goflow.Netflow
+
+/-- the sampling system of one exporter IP is a map keyed by (version, domain): default 0, update on add -/
+theorem rates_refine (r : Rates) (k k' : Nat × Nat) (v : Nat) :
+    (r.add k v).get k' = if k' = k then v else r.get k' := by
+  unfold Rates.add Rates.get
+  rw [lookup_cons_filter]
+  by_cases h : k' = k
+  · subst h; simp
+  · have h2 : (k' == k) = false := by simpa using h
+    simp [h, h2]
+
+theorem rate_zero_before_any (k : Nat × Nat) : Rates.get [] k = 0 := rfl
+
+/-- the messages of a datagram all carry one rate: the one announced in the same message if any,
+    otherwise the stored one; and the stored one is updated exactly when one was announced -/
+theorem rate_of_message (cfg : Option Config) (p : Packet) (rates : Rates)
+    (h : (processNetflow cfg p rates).err = none) :
+    ∃ found, searchSamplingRate (optionRecordsOf p.flowSets) = .ok found ∧
+      (∀ m ∈ (processNetflow cfg p rates).msgs,
+          m.samplingRate = match found with | some x => x | none => rates.get (p.version, p.domain)) ∧
+      (processNetflow cfg p rates).rates =
+          match found with | some x => rates.add (p.version, p.domain) x | none => rates := by
+  unfold processNetflow at h ⊢
+  split at h
+  · simp at h
+  · rename_i msgs hm
+    split at h
+    · simp at h
+    · rename_i found hf
+      refine ⟨found, hf, ?_, ?_⟩
+      · intro m hmem
+        simp only [List.mem_map] at hmem
+        obtain ⟨m0, _, rfl⟩ := hmem
+        cases found <;> rfl
+      · cases found <;> rfl
+
+/-- isolation: an announcement for (version, domain) never changes the rate stored for another key -/
+theorem rate_isolation (r : Rates) (k k' : Nat × Nat) (v : Nat) (h : k' ≠ k) :
+    (r.add k v).get k' = r.get k' := by
+  rw [rates_refine]; simp [h]
+
+/-- search order inside one options record: 305, then 50, then 34; an enterprise-specific element
+    with one of those ids is not an announcement -/
+theorem search_order (fs : List DataField) (rs : List OptionsDataRecord) (v : Bytes) (x : Nat)
+    (h305 : fs.find? (fun f => !f.penProvided && f.type == 305) = some ⟨false, 305, 0, some v⟩)
+    (hv : readU 4 v = .ok (x, [])) :
+    searchSamplingRate (⟨[], fs⟩ :: rs) = .ok (some x) := by
+  simp [searchSamplingRate, populate, h305, hv]
+
+/-- v5: the rate is the low 14 bits of the header's sampling interval -/
+theorem v5_rate (p : V5.Packet) : ∀ m ∈ processLegacy p, m.samplingRate = p.header.samplingInterval % 16384 := by
+  intro m hm
+  simp only [processLegacy, List.mem_map] at hm
+  obtain ⟨_, ⟨_, _, rfl⟩, rfl⟩ := hm
+  rfl
+
+/-- non-vacuity of `search_order` -/
+example : searchSamplingRate [⟨[], [⟨false, 34, 0, some [0,0,0,7]⟩, ⟨false, 305, 0, some [0,0,1,0]⟩]⟩] = .ok (some 256) := by decide
+
+end Goflow.C11
